@@ -22,7 +22,7 @@ ASSUMPTIONS = ['generic-group model of sx/algebra.py; SHA-256 uninterpreted; no 
 EXPLANATION = ('AMHL.setup / setup_for / check_setup / verify_lock_key / release are executed from the real source over the group-algebra stubs for '
                'a symbolic seed: hop i tweak point = (y_0 + ... + y_i)*G, every view validates, the final key opens the last lock, and release '
                'applied right to left yields at every hop the scalar whose point is that hop\'s lock; a key of another hop does not open it')
-MUST_REACH = ['setup_ok', 'cascade_ok', 'tools_ok', 'tools_noseed_ok', 'tools_refunds_ok']
+MUST_REACH = ['setup_ok', 'cascade_ok', 'tools_ok', 'tools_noseed_ok', 'tools_refunds_ok', 'sample_ok']
 
 
 def _setup(c):
@@ -254,6 +254,40 @@ def r_tools_refunds(inputs, params, obligation):
     return {'reproduced': bool(bad), 'bad': bad[:4]}
 
 
+def h_sample(c, pkg, slen, i):
+    """AMHL.sample(seed, i) hashes the WHOLE seed followed by the 8-byte index (different seeds / indices give different hash
+    inputs, hence independent chains), and returns that digest clamped"""
+    A = pkg.AMHL.AMHL
+    F = pkg.functions
+    _setup(c)
+    seed = c.bytes('seed_n', slen)
+    stubs.CONFIG.hash_log = []
+    with algebra.XorShortcut(pkg):
+        y = A.sample(seed, i)
+    apps = [(alg, data, out) for alg, data, out in stubs.CONFIG.hash_log if alg == 'sha256']
+    c.check('one_hash_application_per_sample', len(apps) == 1, n=len(apps))
+    if len(apps) == 1:
+        data = apps[0][1]
+        want = seed + i.to_bytes(8, 'big')
+        c.check('sample_hashes_whole_seed_and_index', len(data) == len(want) and (len(want) == 0 or bytes_eq(data, want)),
+                got_len=len(data), want_len=len(want))
+        c.check('sample_is_the_clamped_digest', len(y) == 32 and bytes_eq(y, F.clamp_scalar(apps[0][2])))
+    c.reach('sample_ok')
+
+
+def r_sample(inputs, params, obligation):
+    """two seeds that differ only beyond / inside the hashed part must give different samples"""
+    from tapescript.AMHL import AMHL as A
+    import hashlib
+    import tapescript.functions as RF
+    seed = inputs.get('seed_n', b'')
+    seed = (seed + bytes(params['slen']))[:params['slen']]
+    i = params['i']
+    want = RF.clamp_scalar(hashlib.sha256(seed + i.to_bytes(8, 'big')).digest())
+    got = A.sample(seed, i)
+    return {'reproduced': got != want, 'got': got.hex(), 'want': want.hex()}
+
+
 # ------------------------------------------------------------------------------ concrete replay (real libsodium)
 def r_amhl(inputs, params, obligation):
     import tapescript
@@ -328,6 +362,8 @@ HARNESSES = [
                 signature=_sig),
     HarnessSpec('tools', h_tools, lambda t: [{'n': n} for n in ((2,) if t == 'quick' else (2, 3))], replay=r_amhl, signature=_sig,
                 fallback=_fallback),
+    HarnessSpec('sample', h_sample, lambda t: [{'slen': n, 'i': i} for n in ((1, 32, 33, 40) if t == 'quick' else (1, 3, 31, 32, 33, 40, 64, 65))
+                                               for i in (0, 1, 300)], replay=r_sample, signature=_sig),
     HarnessSpec('tools_refunds', h_tools_refunds, lambda t: [{'n': 3, 'refunds': r} for r in ([], [0], [1], [2], [0, 2], [0, 1, 2])] +
                 ([{'n': 4, 'refunds': r} for r in ([0], [1, 2], [0, 3])] if t != 'quick' else []), replay=r_tools_refunds, signature=_sig,
                 fallback=lambda params, rng: {'seed': rng.randbytes(32)}),
